@@ -2,6 +2,11 @@
 SPEC = {
     "bins": [
         {"name": "c19", "pkg": "./zz_verif/c19", "run": ".", "shards": {"quick": 1, "thorough": 16}},
+        {"name": "c19wb-count", "pkg": "./vdaf/prio3/count", "run": "^TestVerifC19", "whitebox": True, "shards": {"quick": 1, "thorough": 2}},
+        {"name": "c19wb-sum", "pkg": "./vdaf/prio3/sum", "run": "^TestVerifC19", "whitebox": True, "shards": {"quick": 1, "thorough": 4}},
+        {"name": "c19wb-sumvec", "pkg": "./vdaf/prio3/sumvec", "run": "^TestVerifC19", "whitebox": True, "shards": {"quick": 1, "thorough": 4}},
+        {"name": "c19wb-histogram", "pkg": "./vdaf/prio3/histogram", "run": "^TestVerifC19", "whitebox": True, "shards": {"quick": 1, "thorough": 4}},
+        {"name": "c19wb-mhcv", "pkg": "./vdaf/prio3/mhcv", "run": "^TestVerifC19", "whitebox": True, "shards": {"quick": 1, "thorough": 4}},
     ],
     "rule": "TODO",
     "assumptions": COMMON_ASSUME,
